@@ -108,7 +108,8 @@ pub proof fn lemma_c18_roundtrip(t: PackageType, ns: Seq<char>, name: Seq<char>)
            dict(id='U-comb.combined_name', file=F, fn='combined_name', ctx=_P, wrap=_PW, properties=['C18'],
                 contract='        ensures r@ == comb_join(self.package_type, self.parts.namespace@, self.parts.name@)',
                 rw=[('R3', r'self\.name\(\)\.into\(\)', 'x_cow_from_str(self.name())', '*'),
-                    ('R4', r'format!\("\{\}/\{\}", namespace, self\.name\(\)\)', "x_concat3(namespace, '/', self.name())", '*'),
-                    ('R4', r'format!\("\{\}:\{\}", namespace, self\.name\(\)\)', "x_concat3(namespace, ':', self.name())", '*')]),
+                    # R4 (generic in the two arguments): format!("{}<c>{}", a, b) is a, the character, b
+                    ('R4', r'format!\("\{\}/\{\}", ([\w.]+(?:\(\))?), ([\w.]+(?:\(\))?)\)', r"x_concat3(\1, '/', \2)", '*'),
+                    ('R4', r'format!\("\{\}:\{\}", ([\w.]+(?:\(\))?), ([\w.]+(?:\(\))?)\)', r"x_concat3(\1, ':', \2)", '*')]),
     ],
 )
